@@ -240,3 +240,11 @@ Qed.
 Lemma m_8103_ok : msg_ok (m_8103 u2g g2u gdom).
 Proof. unfold m_8103. fmt_ok. apply params_tail_ok. Qed.
 End Gbk.
+
+(* ---- the recorded finding C07/params-caseless-field: the declared DWORD field of id 0x021 set to 1 *)
+Definition caseless_witness : val :=
+  VL (set_field param_fields fresh_fields 0x021 (VL [VN 0x021; VN 4; VN 1]) ++ [VL []]).
+Lemma params_caseless :
+  params_encode (fun s => s) caseless_witness = [0; 0; 0; 33; 4; 0; 0; 0; 1] /\
+  params_parse (fun s => s) 1 (params_encode (fun s => s) caseless_witness) <> Ok caseless_witness.
+Proof. split; [vm_compute; reflexivity|]. vm_compute. intros E. discriminate E. Qed.
